@@ -26,11 +26,11 @@ type BX struct {
 	X, Y *BX
 }
 
-func bxConst(b bool) *BX   { return &BX{Op: 'c', C: b} }
-func bxAtom(a string) *BX  { return &BX{Op: 'a', A: a} }
-func bxNot(x *BX) *BX      { return &BX{Op: '!', X: x} }
-func bxAnd(x, y *BX) *BX   { return &BX{Op: '&', X: x, Y: y} }
-func bxOr(x, y *BX) *BX    { return &BX{Op: '|', X: x, Y: y} }
+func bxConst(b bool) *BX  { return &BX{Op: 'c', C: b} }
+func bxAtom(a string) *BX { return &BX{Op: 'a', A: a} }
+func bxNot(x *BX) *BX     { return &BX{Op: '!', X: x} }
+func bxAnd(x, y *BX) *BX  { return &BX{Op: '&', X: x, Y: y} }
+func bxOr(x, y *BX) *BX   { return &BX{Op: '|', X: x, Y: y} }
 func (b *BX) String() string {
 	switch b.Op {
 	case 'c':
@@ -184,8 +184,8 @@ type peState struct {
 	events []PEvent
 	blocks []int
 	visits map[*ssa.BasicBlock]int
-	env    map[ssa.Value]ssa.Value   // parameters of inlined helpers -> arguments; inlined calls -> returned value
-	tuple  map[ssa.Value][]ssa.Value // inlined calls with several results
+	env    map[ssa.Value]ssa.Value             // parameters of inlined helpers -> arguments; inlined calls -> returned value
+	tuple  map[ssa.Value][]ssa.Value           // inlined calls with several results
 	pred   map[*ssa.BasicBlock]*ssa.BasicBlock // latest predecessor through which a block was entered
 	mem    map[*ssa.Alloc]ssa.Value            // last value stored into a local cell on this path (defer-spilled results, captured locals)
 }
